@@ -69,4 +69,4 @@ class PID_WB(BasePID):
             The value of I_min.
         """
         p_s = d.marginal(target)
-        return sum(p_s[s] * min(s_i(d, source, target, s) for source in sources) for s in p_s.outcomes)
+        return sum(p_s[s] * min(s_i(d, source, target, s) for source in sources) for s in p_s.outcomes if p_s[s] > 0)
